@@ -71,6 +71,57 @@ theorem coolTrace_get (alpha : F) (n : Nat) (t : F) (k : Nat) (hk : k < n) :
 
 end
 
+/-! ### A carrier with the IEEE special values (for the known finding on infinite objectives) -/
+
+/-- An ordered field extended by `+∞`, `−∞` and `NaN`, with the IEEE rules the acceptance uses. -/
+inductive Ext (F : Type) where
+  | fin (x : F) | pinf | ninf | nan
+
+namespace Ext
+variable {F : Type} [Field F] [LinearOrder F] [IsStrictOrderedRing F]
+
+instance : Sub (Ext F) := ⟨fun a b => match a, b with
+  | fin x, fin y => fin (x - y)
+  | nan, _ => nan | _, nan => nan
+  | pinf, pinf => nan | ninf, ninf => nan
+  | pinf, _ => pinf | ninf, _ => ninf
+  | fin _, pinf => ninf | fin _, ninf => pinf⟩
+
+instance : Div (Ext F) := ⟨fun a b => match a, b with
+  | fin x, fin y => if y = 0 then (if x = 0 then nan else if (0 < x) then pinf else ninf) else fin (x / y)
+  | nan, _ => nan | _, nan => nan
+  | fin _, pinf => fin 0 | fin _, ninf => fin 0
+  | pinf, fin y => if 0 ≤ y then pinf else ninf
+  | ninf, fin y => if 0 ≤ y then ninf else pinf
+  | pinf, _ => nan | ninf, _ => nan⟩
+
+/-- IEEE `<`: false as soon as a NaN is involved. -/
+def ltb : Ext F → Ext F → Bool
+  | fin x, fin y => decide (x < y)
+  | nan, _ => false | _, nan => false
+  | ninf, ninf => false | ninf, _ => true
+  | _, ninf => false
+  | pinf, _ => false
+  | fin _, pinf => true
+
+instance : LT (Ext F) := ⟨fun a b => ltb a b = true⟩
+instance : DecidableLT (Ext F) := fun a b => inferInstanceAs (Decidable (ltb a b = true))
+
+/-- A function on the field lifted to the extended carrier in the IEEE way (`NaN` stays `NaN`);
+the values at `±∞` are parameters. -/
+def lift (f : F → F) (atPinf atNinf : Ext F) : Ext F → Ext F
+  | fin x => fin (f x) | pinf => atPinf | ninf => atNinf | nan => nan
+
+theorem fin_lt_fin (x y : F) : ((fin x : Ext F) < fin y) ↔ x < y := by
+  show ltb (fin x) (fin y) = true ↔ _
+  simp [ltb]
+
+theorem fin_sub_div (x y t : F) (ht : t ≠ 0) : ((fin x : Ext F) - fin y) / fin t = fin ((x - y) / t) := by
+  show (if t = 0 then _ else fin ((x - y) / t)) = _
+  simp [ht]
+
+end Ext
+
 /-- Among the first `N` naturals exactly `min c N` are below `c`. -/
 theorem countP_lt_range (N c : Nat) : (List.range N).countP (fun w => decide (w < c)) = min c N := by
   induction N with
